@@ -7,6 +7,7 @@
 import DD.Dump
 import DDProofs.Ite
 import DDProofs.VarsProofs
+import DDProofs.DynRef
 open Std
 namespace DD
 
@@ -149,34 +150,46 @@ theorem dmp_den_term (t : Tbl) (u : Int) (a : Asg) (h : u.natAbs = 1) : den t u 
   · simp [den_one]
   · rw [den_neg_one]; simp
 
-theorem iteRaw_eq (g u v : Int) (m : Mgr) : iteRaw g u v m = iteF (m.nvars + 2) g u v m := by
+theorem dmp_iteRaw_eq (g u v : Int) (m : Mgr) : iteRaw g u v m = iteF (m.nvars + 2) g u v m := by
   simp [iteRaw, bind, M.bind', M.get]
+
+/-- a property of managers that the three mutations of `BDD.load` keep (used for the exact
+reference counts; `fun _ => True` otherwise) -/
+structure LoadKeeps (Q : Mgr → Prop) : Prop where
+  addVar : ∀ (m : Mgr) (var : String) (lvl : Option Int) (j : Nat) (m' : Mgr), Inv m → Q m →
+    addVar var lvl m = (.ok j, m') → Q m'
+  var : ∀ (m : Mgr) (j : Nat), Inv m → Q m → Q (findOrAdd (j : Int) (-1) 1 m).2
+  ite : ∀ (m : Mgr) (g q p : Int), Inv m → m.tbl.Mem g → m.tbl.Mem q → m.tbl.Mem p → Q m →
+    Q (iteF (m.nvars + 2) g q p m).2
+
+theorem LoadKeeps.trivial : LoadKeeps (fun _ => True) :=
+  ⟨fun _ _ _ _ _ _ _ _ => True.intro, fun _ _ _ _ => True.intro, fun _ _ _ _ _ _ _ _ _ => True.intro⟩
 
 /-- `_load` on a well-formed content: the result denotes, over the levels of the receiving
 manager, what the file says for `u`; only nodes are added -/
-theorem loadNodeF_spec {succ : List PEntry} {lm : List (Nat × Nat)} {n N : Nat}
+theorem loadNodeF_spec {Q : Mgr → Prop} (hQ : LoadKeeps Q) {succ : List PEntry} {lm : List (Nat × Nat)} {n N : Nat}
     (hs : SuccWF succ n) (hl : LMOK succ lm N) :
-    ∀ fuel u umap m, Inv m → m.ctx = false → m.nvars = N → UOK succ lm n m.tbl umap → FRef succ u →
+    ∀ fuel u umap m, Inv m → Q m → m.ctx = false → m.nvars = N → UOK succ lm n m.tbl umap → FRef succ u →
       n + 1 ≤ fuel + flevel succ n u →
       ∃ r umap' m', loadNodeF succ lm fuel u umap m = (.ok (r, umap'), m') ∧ Inv m' ∧ Frame m m' ∧
         Ext m.tbl m'.tbl ∧ UOK succ lm n m'.tbl umap' ∧
         (∀ k, umap.contains k = true → umap'.contains k = true) ∧
         m'.tbl.Mem r ∧
         (∀ a, den m'.tbl r a = evalL succ lm (n + 1) u a) ∧
-        (u.natAbs ≠ 1 → umap'.contains (u.natAbs : Int) = true) := by
+        (u.natAbs ≠ 1 → umap'.contains (u.natAbs : Int) = true) ∧ Q m' := by
   intro fuel
   induction fuel with
   | zero =>
-    intro u umap m _ _ _ _ _ hk
+    intro u umap m _ _ _ _ _ _ hk
     have := flevel_le hs u
     omega
   | succ f ih =>
-    intro u umap m hI hc hN hU hr hk
+    intro u umap m hI hq hc hN hU hr hk
     rw [loadNodeF]
     dsimp only
     by_cases h1 : u.natAbs = 1
     · rw [if_pos h1]
-      refine ⟨u, umap, m, rfl, hI, Frame.refl _, Ext.refl _, hU, fun _ h => h, Or.inl h1, ?_, ?_⟩
+      refine ⟨u, umap, m, rfl, hI, Frame.refl _, Ext.refl _, hU, fun _ h => h, Or.inl h1, ?_, ?_, hq⟩
       · intro a; rw [dmp_den_term _ _ _ h1, evalL_term _ _ _ _ _ h1]
       · intro h; exact absurd h1 h
     · rw [if_neg h1]
@@ -192,7 +205,7 @@ theorem loadNodeF_spec {succ : List PEntry} {lm : List (Nat × Nat)} {n N : Nat}
         have hr0 : ¬ r = 0 := mem_ne_zero hI.wf.toWF rm
         have hu0 : ¬ u < 0 := by omega
         rw [if_neg hr0, if_neg hu0]
-        exact ⟨r, umap, m, rfl, hI, Frame.refl _, Ext.refl _, hU, fun _ h => h, rm, rd, fun _ => hmem⟩
+        exact ⟨r, umap, m, rfl, hI, Frame.refl _, Ext.refl _, hU, fun _ h => h, rm, rd, fun _ => hmem, hq⟩
       · rw [if_neg hmem]
         rcases hr with hr | hr
         · exact absurd hr h1
@@ -202,15 +215,15 @@ theorem loadNodeF_spec {succ : List PEntry} {lm : List (Nat × Nat)} {n N : Nat}
         have hfl : flevel succ n u = e.lvl := by simp [flevel, h1, he]
         simp only [he, hj, hv, hw]
         -- low
-        obtain ⟨p, umap1, m1, e1, I1, F1, X1, U1, D1, Mp, Dp, _⟩ :=
-          ih v umap m hI hc hN hU rv (by omega)
+        obtain ⟨p, umap1, m1, e1, I1, F1, X1, U1, D1, Mp, Dp, _, Q1⟩ :=
+          ih v umap m hI hq hc hN hU rv (by omega)
         rw [e1]
         simp only
         have hc1 : m1.ctx = false := by rw [F1.ctx]; exact hc
         have hN1 : m1.nvars = N := by rw [← hN]; exact X1.nvars.symm
         -- high
-        obtain ⟨q, umap2, m2, e2, I2, F2, X2, U2, D2, Mq, Dq, _⟩ :=
-          ih w umap1 m1 I1 hc1 hN1 U1 rw' (by omega)
+        obtain ⟨q, umap2, m2, e2, I2, F2, X2, U2, D2, Mq, Dq, _, Q2⟩ :=
+          ih w umap1 m1 I1 Q1 hc1 hN1 U1 rw' (by omega)
         rw [e2]
         simp only
         have hc2 : m2.ctx = false := by rw [F2.ctx]; exact hc1
@@ -231,12 +244,13 @@ theorem loadNodeF_spec {succ : List PEntry} {lm : List (Nat × Nat)} {n N : Nat}
             rw [hc2] at this
             cases this
           | ok g =>
+            have Q3 : Q m3 := by have := hQ.var m2 j I2 Q2; rw [hfe] at this; exact this
             have P3 : FoaPost' m2 j (-1) 1 g m3 := hfo
             simp only
             have hc3 : m3.ctx = false := by rw [P3.frame.ctx]; exact hc2
             have Mq3 : m3.tbl.Mem q := P3.ext.mem Mq
             have Mp3 : m3.tbl.Mem p := P3.ext.mem (X2.mem Mp)
-            rw [iteRaw_eq]
+            rw [dmp_iteRaw_eq]
             have hit := iteF_spec (m3.nvars + 2) m3 g q p P3.inv P3.mem Mq3 Mp3 (by omega)
             cases hie : iteF (m3.nvars + 2) g q p m3 with
             | mk res4 m4 =>
@@ -248,6 +262,8 @@ theorem loadNodeF_spec {succ : List PEntry} {lm : List (Nat × Nat)} {n N : Nat}
                 rw [hc3] at this
                 cases this
               | ok r =>
+                have Q4 : Q m4 := by
+                  have := hQ.ite m3 g q p P3.inv P3.mem Mq3 Mp3 Q3; rw [hie] at this; exact this
                 have P4 : ItePost m3 g q p r m4 := hit
                 simp only
                 have hr0 : ¬ r = 0 := mem_ne_zero P4.inv.wf.toWF P4.mem
@@ -262,7 +278,7 @@ theorem loadNodeF_spec {succ : List PEntry} {lm : List (Nat × Nat)} {n N : Nat}
                     den_ext (X2.trans P3.ext) I1.wf.toWF p a Mp, Dp a]
                   cases a j <;> simp
                 refine ⟨_, _, m4, rfl, P4.inv, ((F1.trans F2).trans P3.frame).trans P4.frame,
-                  (X1.trans X2).trans X24, ?_, ?_, ?_, ?_, ?_⟩
+                  (X1.trans X2).trans X24, ?_, ?_, ?_, ?_, ?_, Q4⟩
                 · -- UOK
                   intro k x hkx
                   rw [TreeMap.getElem?_insert] at hkx
@@ -308,42 +324,42 @@ theorem PEntry.find_id {succ : List PEntry} {k : Nat} {e : PEntry} (h : PEntry.f
   have := List.find?_some h
   simpa using this
 
-theorem loadAll_spec {succ : List PEntry} {lm : List (Nat × Nat)} {n N fuel : Nat}
+theorem loadAll_spec {Q : Mgr → Prop} (hQ : LoadKeeps Q) {succ : List PEntry} {lm : List (Nat × Nat)} {n N fuel : Nat}
     (hs : SuccWF succ n) (hl : LMOK succ lm N) (hfuel : n + 1 ≤ fuel) :
-    ∀ (es : List PEntry) umap m, (∀ e ∈ es, e ∈ succ) → Inv m → m.ctx = false → m.nvars = N →
+    ∀ (es : List PEntry) umap m, (∀ e ∈ es, e ∈ succ) → Inv m → Q m → m.ctx = false → m.nvars = N →
       UOK succ lm n m.tbl umap →
       ∃ umap' m', loadAll succ lm fuel es umap m = (.ok umap', m') ∧ Inv m' ∧ Frame m m' ∧
         Ext m.tbl m'.tbl ∧ UOK succ lm n m'.tbl umap' ∧
         (∀ k, umap.contains k = true → umap'.contains k = true) ∧
-        (∀ e ∈ es, e.id ≠ 1 → umap'.contains (e.id : Int) = true) := by
+        (∀ e ∈ es, e.id ≠ 1 → umap'.contains (e.id : Int) = true) ∧ Q m' := by
   intro es
   induction es with
   | nil =>
-    intro umap m _ hI _ _ hU
-    exact ⟨umap, m, rfl, hI, Frame.refl _, Ext.refl _, hU, fun _ h => h, by simp⟩
+    intro umap m _ hI hq _ _ hU
+    exact ⟨umap, m, rfl, hI, Frame.refl _, Ext.refl _, hU, fun _ h => h, by simp, hq⟩
   | cons e rest ih =>
-    intro umap m hsub hI hc hN hU
+    intro umap m hsub hI hq hc hN hU
     rw [loadAll]
     dsimp only
     have hsub' : ∀ e ∈ rest, e ∈ succ := fun x hx => hsub x (List.mem_cons_of_mem _ hx)
     by_cases hmem : umap.contains (e.id : Int) = true
     · rw [if_pos hmem]
-      obtain ⟨umap', m', e1, I1, F1, X1, U1, D1, A1⟩ := ih umap m hsub' hI hc hN hU
-      refine ⟨umap', m', e1, I1, F1, X1, U1, D1, ?_⟩
+      obtain ⟨umap', m', e1, I1, F1, X1, U1, D1, A1, Q1⟩ := ih umap m hsub' hI hq hc hN hU
+      refine ⟨umap', m', e1, I1, F1, X1, U1, D1, ?_, Q1⟩
       intro x hx hx1
       rcases List.mem_cons.mp hx with h | h
       · subst h; exact D1 _ hmem
       · exact A1 x h hx1
     · rw [if_neg hmem]
       have hr : FRef succ (e.id : Int) := Or.inr (by simpa using PEntry.find_isSome_of_mem (hsub e List.mem_cons_self))
-      obtain ⟨r, umap1, m1, e1, I1, F1, X1, U1, D1, _, _, C1⟩ :=
-        loadNodeF_spec hs hl fuel (e.id : Int) umap m hI hc hN hU hr (by omega)
+      obtain ⟨r, umap1, m1, e1, I1, F1, X1, U1, D1, _, _, C1, Q1⟩ :=
+        loadNodeF_spec hQ hs hl fuel (e.id : Int) umap m hI hq hc hN hU hr (by omega)
       rw [e1]
       dsimp only
       have hc1 : m1.ctx = false := by rw [F1.ctx]; exact hc
       have hN1 : m1.nvars = N := by rw [← hN]; exact X1.nvars.symm
-      obtain ⟨umap', m', e2, I2, F2, X2, U2, D2, A2⟩ := ih umap1 m1 hsub' I1 hc1 hN1 U1
-      refine ⟨umap', m', e2, I2, F1.trans F2, X1.trans X2, U2, fun k hk => D2 k (D1 k hk), ?_⟩
+      obtain ⟨umap', m', e2, I2, F2, X2, U2, D2, A2, Q2⟩ := ih umap1 m1 hsub' I1 Q1 hc1 hN1 U1
+      refine ⟨umap', m', e2, I2, F1.trans F2, X1.trans X2, U2, fun k hk => D2 k (D1 k hk), ?_, Q2⟩
       intro x hx hx1
       rcases List.mem_cons.mp hx with h | h
       · subst h
@@ -417,20 +433,20 @@ theorem mapRoots_spec {umap : TreeMap Int Int} {P : Int → Int → Prop} (r : R
 
 /-- the second half of `load`: with the variables declared, the nodes are rebuilt and the
 roots denote (over the target's levels) what the file says -/
-theorem loadPickle_core (f : PickleFile) (levels : Bool) (lm : List (Nat × Nat))
+theorem loadPickle_core {Q : Mgr → Prop} (hQ : LoadKeeps Q) (f : PickleFile) (levels : Bool) (lm : List (Nat × Nat))
     (m m1 : Mgr) (hv : loadVars levels f.vars.length f.vars [] m = (.ok lm, m1))
-    (hI : Inv m1) (hc : m1.ctx = false) (hs : SuccWF f.succ f.vars.length)
+    (hI : Inv m1) (hq : Q m1) (hc : m1.ctx = false) (hs : SuccWF f.succ f.vars.length)
     (hl : LMOK f.succ lm m1.nvars) (hr : RootsResolvable f) :
     ∃ roots' m', loadPickle f levels m = (.ok roots', m') ∧ Inv m' ∧ Frame m1 m' ∧
       Ext m1.tbl m'.tbl ∧
       RootsRel (fun u r => m'.tbl.Mem r ∧
-        ∀ a, den m'.tbl r a = evalL f.succ lm (f.vars.length + 1) u a) f.roots roots' := by
+        ∀ a, den m'.tbl r a = evalL f.succ lm (f.vars.length + 1) u a) f.roots roots' ∧ Q m' := by
   unfold loadPickle
   rw [hv]
   dsimp only
-  obtain ⟨umap, m2, e2, I2, F2, X2, U2, _, A2⟩ :=
-    loadAll_spec hs hl (fuel := f.vars.length + f.succ.length + 2) (by omega) f.succ {} m1
-      (fun _ h => h) hI hc rfl (UOK.empty _ _ _ _)
+  obtain ⟨umap, m2, e2, I2, F2, X2, U2, _, A2, Q2⟩ :=
+    loadAll_spec hQ hs hl (fuel := f.vars.length + f.succ.length + 2) (by omega) f.succ {} m1
+      (fun _ h => h) hI hq hc rfl (UOK.empty _ _ _ _)
   rw [e2]
   dsimp only
   obtain ⟨r', h1, h2⟩ := mapRoots_spec (umap := umap)
@@ -464,7 +480,7 @@ theorem loadPickle_core (f : PickleFile) (levels : Bool) (lm : List (Nat × Nat)
         · rw [if_neg hneg, vd a]
           have hu : (u.natAbs : Int) = u := by omega
           rw [hu])
-  exact ⟨r', m2, by rw [h1], I2, F2, X2, h2⟩
+  exact ⟨r', m2, by rw [h1], I2, F2, X2, h2, Q2⟩
 
 /-! ### the variables: `add_var` in `_load_pickle` -/
 
@@ -804,18 +820,19 @@ def LoadedFrom (f : PickleFile) (t : Tbl) (roots' : Roots) : Prop :=
 manager invariant is kept, old nodes are untouched, and the result is `LoadedFrom` the file
 — for either value of `levels`, any variable order of the receiving manager, constant
 roots, or no roots. -/
-theorem pickle_load (f : PickleFile) (levels : Bool)
-    (m : Mgr) (hI : Inv m) (hb : DmpVarsBij m.tbl) (hc : m.ctx = false)
+theorem pickle_loadQ {Q : Mgr → Prop} (hQ : LoadKeeps Q) (f : PickleFile) (levels : Bool)
+    (m : Mgr) (hI : Inv m) (hq : Q m) (hb : DmpVarsBij m.tbl) (hc : m.ctx = false)
     (hwf : PickleWF f) (hr : RootsResolvable f)
     (lm : List (Nat × Nat)) (m1 : Mgr)
     (hv : loadVars levels f.vars.length f.vars [] m = (.ok lm, m1))
     (hg : Contig m1.tbl) :
     ∃ roots' m', loadPickle f levels m = (.ok roots', m') ∧ Inv m' ∧ DmpVarsBij m'.tbl ∧
       Contig m'.tbl ∧ m'.ctx = false ∧ (∀ u n, m.tbl.node? u = some n → m'.tbl.node? u = some n) ∧
-      LoadedFrom f m'.tbl roots' := by
-  obtain ⟨I1, B1, C1, S1, M1, R1, D1, _, L1⟩ :=
-    loadVars_spec Inv levels f.vars.length f.vars (fun m var i j m' _ hJ h => addVar_inv hJ h)
-      [] m lm m1 hv hI hb
+      LoadedFrom f m'.tbl roots' ∧ Q m' := by
+  obtain ⟨⟨I1, Q1⟩, B1, C1, S1, M1, R1, D1, _, L1⟩ :=
+    loadVars_spec (fun m => Inv m ∧ Q m) levels f.vars.length f.vars
+      (fun m var i j m' _ hJ h => ⟨addVar_inv hJ.1 h, hQ.addVar m var _ j m' hJ.1 hJ.2 h⟩)
+      [] m lm m1 hv ⟨hI, hq⟩ hb
   have hl : LMOK f.succ lm m1.nvars := by
     constructor
     intro k e he h1
@@ -825,8 +842,8 @@ theorem pickle_load (f : PickleFile) (levels : Bool)
     rcases R1 _ _ hj with h | ⟨v, _, hv'⟩
     · simp at h
     · exact hg v j hv'
-  obtain ⟨roots', m', e1, I2, F2, X2, RR⟩ :=
-    loadPickle_core f levels lm m m1 hv I1 (C1.trans hc) hwf.succ hl hr
+  obtain ⟨roots', m', e1, I2, F2, X2, RR, Q2⟩ :=
+    loadPickle_core hQ f levels lm m m1 hv I1 Q1 (C1.trans hc) hwf.succ hl hr
   have hn : NameOK f lm m'.tbl := by
     intro i j hij
     rcases R1 _ _ hij with h | ⟨v, hv1, hv2⟩
@@ -839,7 +856,7 @@ theorem pickle_load (f : PickleFile) (levels : Bool)
     rw [F2.vars] at h
     have := hg v l h
     rw [← X2.nvars]; exact this
-  refine ⟨roots', m', e1, I2, B2, G2, F2.ctx.trans (C1.trans hc), ?_, ?_⟩
+  refine ⟨roots', m', e1, I2, B2, G2, F2.ctx.trans (C1.trans hc), ?_, ?_, Q2⟩
   · intro u n hn'
     apply X2.nodes
     unfold Tbl.node? at hn' ⊢
@@ -851,6 +868,51 @@ theorem pickle_load (f : PickleFile) (levels : Bool)
       unfold denBy evalPickle
       rw [h2, evalL_eq_evalN f lm m'.tbl _ hl hn]
     exact RR.imp conv
+
+theorem pickle_load (f : PickleFile) (levels : Bool)
+    (m : Mgr) (hI : Inv m) (hb : DmpVarsBij m.tbl) (hc : m.ctx = false)
+    (hwf : PickleWF f) (hr : RootsResolvable f)
+    (lm : List (Nat × Nat)) (m1 : Mgr)
+    (hv : loadVars levels f.vars.length f.vars [] m = (.ok lm, m1))
+    (hg : Contig m1.tbl) :
+    ∃ roots' m', loadPickle f levels m = (.ok roots', m') ∧ Inv m' ∧ DmpVarsBij m'.tbl ∧
+      Contig m'.tbl ∧ m'.ctx = false ∧ (∀ u n, m.tbl.node? u = some n → m'.tbl.node? u = some n) ∧
+      LoadedFrom f m'.tbl roots' := by
+  obtain ⟨r, m', a, b, c, d, e, g, h, _⟩ :=
+    pickle_loadQ LoadKeeps.trivial f levels m hI True.intro hb hc hwf hr lm m1 hv hg
+  exact ⟨r, m', a, b, c, d, e, g, h⟩
+
+/-- exact reference counts are kept by the three mutations of `BDD.load` -/
+theorem LoadKeeps.refExact (ext : Nat → Nat) : LoadKeeps (fun m => RefExact m ext) := by
+  refine ⟨?_, ?_, ?_⟩
+  · intro m var lvl j m' _ hr h
+    rcases dmp_addVar_cases h with ⟨_, h2, _⟩ | ⟨_, _, _, h4⟩
+    · subst h2; exact hr
+    · subst h4
+      exact ⟨fun u => hr.dom u, fun u c hc => by
+        have := hr.cnt u c hc
+        rw [← indeg_congr (t := m.tbl)
+          (t' := { m.tbl with vars := m.tbl.vars.insert var j, l2v := m.tbl.l2v.insert j var })
+          (fun _ => rfl) u] at this
+        exact this, hr.extZero⟩
+  · intro m j hI hr
+    exact findOrAdd_refExact m ext j (-1) 1 hI.wf.toWF hr
+  · intro m g q p hI hg hq hp hr
+    exact iteF_refExact (m.nvars + 2) m ext g q p hI hr hg hq hp (by omega)
+
+/-- `C12_load_target_counts` for `dd.bdd.BDD.load`: the loaded roots are NOT referenced on
+behalf of the caller — the counts stay exact for the SAME ledger of user references -/
+theorem pickle_load_counts (ext : Nat → Nat) (f : PickleFile) (levels : Bool)
+    (m : Mgr) (hI : Inv m) (hx : RefExact m ext) (hb : DmpVarsBij m.tbl) (hc : m.ctx = false)
+    (hwf : PickleWF f) (hr : RootsResolvable f)
+    (lm : List (Nat × Nat)) (m1 : Mgr)
+    (hv : loadVars levels f.vars.length f.vars [] m = (.ok lm, m1))
+    (hg : Contig m1.tbl) :
+    ∃ roots' m', loadPickle f levels m = (.ok roots', m') ∧ Inv m' ∧ RefExact m' ext ∧
+      LoadedFrom f m'.tbl roots' := by
+  obtain ⟨r, m', a, b, _, _, _, _, h, q⟩ :=
+    pickle_loadQ (LoadKeeps.refExact ext) f levels m hI hx hb hc hwf hr lm m1 hv hg
+  exact ⟨r, m', a, b, q, h⟩
 
 /-- C12 for `BDD.load` at FULL strength: every well-formed pickle content whose variables
 the loader accepts (no level gap left) loads without error into a manager satisfying the
@@ -1439,8 +1501,8 @@ theorem pickle_roundtrip_any_order
         obtain ⟨I1, _⟩ := loadVars_spec Inv false f.vars.length f.vars
           (fun m var i j m' _ hJ h => addVar_inv hJ h) [] tgt lm m1 hv hI hO.bij
         obtain ⟨umap', m2', e2, _, F2, X2, _⟩ :=
-          loadAll_spec hwf.succ hl (fuel := f.vars.length + f.succ.length + 2) (by omega) f.succ {} m1
-            (fun _ h => h) I1 (C1.trans hc) rfl (UOK.empty _ _ _ _)
+          loadAll_spec LoadKeeps.trivial hwf.succ hl (fuel := f.vars.length + f.succ.length + 2) (by omega) f.succ {} m1
+            (fun _ h => h) I1 True.intro (C1.trans hc) rfl (UOK.empty _ _ _ _)
         rw [hla] at e2
         simp only [Prod.mk.injEq] at e2
         obtain ⟨_, rfl⟩ := e2
